@@ -12,6 +12,8 @@ import (
 	"net"
 	"strconv"
 	"strings"
+	"sync"
+	"sync/atomic"
 	"time"
 
 	"github.com/absfs/absnfs"
@@ -30,6 +32,10 @@ func init() {
 			Ops []string `json:"ops"`
 		}
 		json.Unmarshal(raw, &rp)
+		if len(rp.Ops) > 0 && rp.Ops[0] == "late-admission" {
+			lateAdmission(r, 150)
+			return
+		}
 		if len(rp.Ops) > 0 && strings.HasPrefix(rp.Ops[0], "gate ") {
 			gateCheck(r, rand.New(rand.NewSource(1))) // the gate scenarios are a fixed table: replayed as a whole
 			return
@@ -387,6 +393,11 @@ func checkC09(r *Result, rng *rand.Rand, thorough bool) {
 	}
 	// HandleCall gate: a denied request gets MSG_DENIED and no backend call, for every program/procedure
 	gateCheck(r, rng)
+	rounds := 12
+	if thorough {
+		rounds = 150
+	}
+	lateAdmission(r, rounds)
 	var cases []Case
 	var il [][]string
 	for i := 0; i < len(ops); i += 2000 {
@@ -704,5 +715,89 @@ func appliedOne(r *Result, w *World, mode string, c Cred, name string) {
 	if uint32(gu) != wu || uint32(gg) != wg {
 		r.violate(Violation{Class: "C10/applied-identity", What: fmt.Sprintf("squash %q, flavor %d credential %d:%d: the request ran as %d:%d (owner recorded for the file it created), the squash rule gives %d:%d",
 			mode, c.Flavor, c.UID, c.GID, gu, gg, wu, wg), Ops: []string{fmt.Sprintf("applied %s %d %d %d", mode, c.Flavor, c.UID, c.GID)}})
+	}
+}
+
+// lateAdmission: the host filter gates every request under the policy in force when it is admitted. Clients
+// that the current (long) allow-list admits keep sending GETATTRs while the export is switched to a list that
+// excludes them (or to Secure, their port being unprivileged). Once the update has returned, no backend call may
+// begin on behalf of such a client: requests admitted earlier have finished (the update drains them), later ones
+// are denied. A request validated against the old policy but executed after the switch shows up as a backend
+// call that starts after the update returned.
+func lateAdmission(r *Result, rounds int) {
+	var old []string
+	for i := 0; i < 1500; i++ {
+		old = append(old, fmt.Sprintf("172.%d.%d.0/24", 16+i%16, i%250), fmt.Sprintf("2001:db8:%x::/48", i))
+	}
+	old = append(old, "10.0.0.9")
+	for round := 0; round < rounds; round++ {
+		secure := round%3 == 2
+		fs := NewRefFS()
+		fs.logOn = false
+		var updated atomic.Bool
+		var late atomic.Int64
+		var lateCall atomic.Value
+		fs.gate = func(call string) {
+			if updated.Load() {
+				late.Add(1)
+				lateCall.Store(call)
+			}
+		}
+		s, err := newSrv(fs, absnfs.ExportOptions{AllowedIPs: old, AttrCacheTimeout: time.Nanosecond})
+		must(err)
+		s.IP, s.Port = "10.0.0.9", 5000
+		root, st := s.Mount("/")
+		if st != 0 {
+			s.Close()
+			r.Notes = append(r.Notes, "late admission: mount refused")
+			return
+		}
+		stop := make(chan struct{})
+		var wg sync.WaitGroup
+		var sent atomic.Int64
+		for g := 0; g < 6; g++ {
+			wg.Add(1)
+			go func() {
+				defer wg.Done()
+				for {
+					select {
+					case <-stop:
+						return
+					default:
+					}
+					s.NFSCall(1, rootCred(), fh(root))
+					sent.Add(1)
+				}
+			}()
+		}
+		time.Sleep(time.Duration(1+round%5) * time.Millisecond)
+		cur := s.NFS.GetExportOptions()
+		if secure {
+			cur.Secure = true
+		} else {
+			cur.AllowedIPs = []string{"192.0.2.1"}
+		}
+		uerr := s.NFS.UpdateExportOptions(cur)
+		updated.Store(true)
+		time.Sleep(3 * time.Millisecond)
+		close(stop)
+		wg.Wait()
+		s.Close()
+		r.noteCase(fmt.Sprint("late-admission", round), true)
+		r.count("late-admission")
+		r.Histogram["late-admission:requests"] += int(sent.Load())
+		if uerr != nil {
+			r.Notes = append(r.Notes, "late admission: update refused: "+uerr.Error())
+			continue
+		}
+		if n := late.Load(); n > 0 {
+			what := "AllowedIPs that excludes the client"
+			if secure {
+				what = "Secure (the client's port is 5000)"
+			}
+			r.violate(Violation{Class: "C09/served-after-restricting-update", What: fmt.Sprintf("%d backend call(s) (e.g. %v) began after UpdateExportOptions switching to %s had returned: a request judged under the old policy ran under the new one", n, lateCall.Load(), what),
+				Ops: []string{"late-admission"}})
+			return
+		}
 	}
 }
